@@ -966,6 +966,12 @@ ADV_LINES = [
     'r1 = (1 / 0) || five(2)', 'r1 = -(1 / 0)', 'r1 = -"s"', 'r1 = -cy', "r1 = true + 1", "r1 = null * 2", "r1 = 'a' * 2", "r1 = dd * 2", "r1 = cy - cy", "r1 = 'a' < 1",
     'for vv in cy:\n    r1 = vv + 1\nendfor', 'for vv, jj in deep:\n    r1 = jj\nendfor', 'for vv in five:\n    r1 = vv\nendfor', 'if 1 / 0:\n    r1 = 1\nelse:\n    r1 = 2\nendif',
     "if '' + cy:\n    r1 = 1\nendif", 'jumpif (cy == cy) skipA\nr1 = 9\nskipA:',
+    # boolean contexts (value_boolean is called outside any handler: conditions, !, && / ||, if()) with adversarial values
+    'if hx:\n    r1 = 1\nelse:\n    r1 = 2\nendif', 'if hh:\n    r1 = 1\nendif', 'if nan:\n    r1 = 1\nelse:\n    r1 = 2\nendif', 'if inf:\n    r1 = 1\nendif',
+    'if cy:\n    r1 = 1\nendif', 'if deep:\n    r1 = 1\nendif', 'if dmax:\n    r1 = 1\nendif', 'while hx:\n    r1 = 1\n    break\nendwhile',
+    'while nan:\n    r1 = 1\n    break\nendwhile', 'r1 = !hx', 'r1 = !hh', 'r1 = !nan', 'r1 = !inf', 'r1 = !cy', 'r1 = !deep', 'r1 = hx && 1', 'r1 = hx || 1', 'r1 = nan && 1',
+    'r1 = nan || 1', 'r1 = cy && 1', 'r1 = if(hx, 1, 2)', 'r1 = if(nan, 1, 2)', 'r1 = if(hh, 1, 2)', 'jumpif (hx) skipB\nr1 = 9\nskipB:', 'jumpif (nan) skipC\nr1 = 9\nskipC:',
+    'r1 = systemBoolean(hx)', 'r1 = arrayIndexOf(arrayNew(1, 2), five)', 'if 0 - hx:\n    r1 = 1\nendif',
 ]
 RT_LINES = [      # these END the run with a documented exception
     'r1 = nosuchFunction(1)', 'r1 = sfRaise(1, 2)', 'r1 = arraySort(arrayNew(3, 1, 2), sfRaise)', 'r1 = arrayIndexOf(arrayNew(1, 2), sfRaise)',
